@@ -80,17 +80,18 @@ TagReport(rec) ==
         occs  == SeqOccs(outs)
         sbad  == SharedBadRsC(cls, occs)
         obad  == IF whole THEN OpBadRsC(cls, I) ELSE {}
+        scope == InScope(ins)      \* the sharing sentences speak about these lists only
         fails ==
             Opt(tv # "", F("value-tree", tv))
          \o Opt(rv # "", F("value-evaluated", rv))
          \o Opt(~NoWrapperOnWrapper(ins, outs), F("wrapper-on-wrapper", ""))
-         \o Opt(sbad # {}, F("not-shared", SharingPattern(ins, sbad)))
+         \o Opt(scope /\ sbad # {}, F("not-shared", SharingPattern(ins, sbad)))
          \o Opt(run.bad # "", F(run.bad, evs[run.at].ev))
-         \o Opt(obad # {}, F("RepeatedOpOnce", SharingPattern(ins, obad)))
+         \o Opt(scope /\ obad # {}, F("RepeatedOpOnce", SharingPattern(ins, obad)))
          \o Opt(whole /\ ~AllInstInv(I), F("final-state-invariant", ""))
          \* the independent counter exceeds the bound: explained by the operation-level
          \* finding when there is one, a class of its own otherwise
-         \o Opt(whole /\ rec.fcalls > Cardinality({p \in cls : p.R.t = "Call"}),
+         \o Opt(scope /\ whole /\ rec.fcalls > CallBound(ins),
                 F("call-count", IF obad # {} THEN SharingPattern(ins, obad) ELSE "plain"))
          \o Opt(hv # "", F("hist-value", hv))
         drift == Opt(outs # TagImpl(ins), "tagger") \o Opt(rec.houts # HistTagImpl(ins), "histogram-tagger")
@@ -98,6 +99,7 @@ TagReport(rec) ==
               \o Opt(SharedBadRsC(cls, SeqOccs(rec.houts)) # {}, "hist-not-shared")
               \o Opt({R \in OccRs(occs) : NClassesC(cls, R) = 0} # {}, "unattributed-nodes")
               \o Opt(~whole /\ run.bad = "", "canonical-history-raised")
+              \o Opt(~scope /\ (sbad # {} \/ obad # {}), "out-of-scope-not-shared")
     IN [id |-> rec.id, fails |-> fails, skip |-> NSkipped(ins, rec.vals),
         drift |-> drift, obs |-> obs]
 
